@@ -11,7 +11,11 @@ import (
 	"encoding/json"
 	"fmt"
 	"os"
+	"path/filepath"
 	"runtime/pprof"
+	"strings"
+
+	"github.com/wader/fq/internal/verif/fqrun"
 
 	"github.com/wader/fq/internal/verif/core"
 )
@@ -32,6 +36,12 @@ func run(r *core.Run) {
 		f, _ := os.Create(p)
 		_ = pprof.StartCPUProfile(f)
 		defer pprof.StopCPUProfile()
+	}
+	if only == "fq" {
+		// dev knob: VERIF_ONLY=fq VERIF_ARGS="arg<US>arg..." [VERIF_FILES=path,...] runs the
+		// in-process fq command line once and prints the result (no verdict)
+		devFQ()
+		return
 	}
 	w, err := NewWalker(r, C05Driver)
 	if err != nil {
@@ -66,7 +76,7 @@ func run(r *core.Run) {
 			r.Violate(f.Sig, f.Msg, t.Case)
 		}
 		if st.Unaligned > before.Unaligned || st.Nested > before.Nested {
-			r.Nontrivial(t.Case.String())
+			r.Nontrivial(t.Case.Prog + t.Case.File + t.Case.Format)
 		}
 		if evals%4001 == 0 {
 			r.Sample(map[string]any{"tree": t.Case.String(), "values": st.Values - before.Values})
@@ -79,7 +89,7 @@ func run(r *core.Run) {
 		}
 	}
 	if only == "" || only == "cli" {
-		if runCLI(r, core.Pick(r, 2, 2), core.Pick(r, 1, 2)) {
+		if runCLI(r, 2, core.Pick(r, 1, 2), core.Pick(r, 1, 2)) {
 			r.Section("cli-dsl")
 		}
 	}
@@ -185,4 +195,21 @@ func BuildTree(repo string, c TreeCase) (*Tree, error) {
 		return BuildDSL(c)
 	}
 	return BuildCorpus(repo, c, nil)
+}
+
+func devFQ() {
+	files := map[string][]byte{}
+	for _, f := range strings.Split(os.Getenv("VERIF_FILES"), ",") {
+		if f == "" {
+			continue
+		}
+		b, err := os.ReadFile(f)
+		if err != nil {
+			fmt.Println(err)
+			return
+		}
+		files[filepath.Base(f)] = b
+	}
+	res := fqrun.Run(fqrun.Opts{Args: strings.Split(os.Getenv("VERIF_ARGS"), "\x1f"), Files: files, StdinIsTerminal: true})
+	fmt.Printf("exit=%d panic=%v\nstdout=%q\nstderr=%s\n", res.Exit, res.Panic, res.Stdout, res.Stderr)
 }
